@@ -1,11 +1,63 @@
-/- C11 — executable model (stub; filled in by the property's owner). -/
-import Mahotas.Model.Border
-import Mahotas.Model.DType
+/-
+C11 — executable model: interpreter of the guards extracted from the current source (Generated/Guards.lean),
+kernel preconditions `Pre_K`, and the seeding loop of `slic` (the one loop whose bound depends on a parameter that
+the repaired wrapper now guards).
+
+Driver protocol:  `c11 kind=guards fn=<short name> <param>=<kind,ndim,dcls,flags,ival,shape…> …`
+                  → `verdict=accept|reject|unknown-fn atom=<index of the first rejecting atom or -1> n=<number of atoms>`
+                  `c11 kind=seeds s=<S> n=<N>` → `seeds=<positions> count=<k>`  (transliteration of `for (y = S/2; y < N; y += S)`)
+-/
+import Mahotas.Model.C11Base
+import Mahotas.Generated.Guards
 namespace Mahotas.C11
 open Mahotas
 
+def descOfInts : List Int → Desc
+  | k :: nd :: dc :: fl :: iv :: sh => { kind := k.toNat, ndim := nd.toNat, dcls := dc.toNat, flags := fl.toNat, ival := iv, shape := sh.map Int.toNat }
+  | _ => {}
+
+def envOfArgs (a : Args) : Env := fun name => if a.has name then descOfInts (a.ints name) else {}
+
+def guardsOf (short : String) : Option (List Atom) :=
+  (Generated.wrapperGuards.find? (fun e => e.2.1 == short)).map (·.2.2)
+
+/-- the seeding loop of `slic`: `for (y = S/2; y < N; y += S)`, with explicit fuel -/
+def seedLoop (S N : Nat) : Nat → Nat → List Nat
+  | 0, _ => []
+  | fuel + 1, y => if y < N then y :: seedLoop S N fuel (y + S) else []
+
+/-- seeds along one axis (fuel `N` suffices when `S ≥ 1`) -/
+def seeds (S N : Nat) : List Nat := seedLoop S N N (S / 2)
+
+/-! ### kernel preconditions -/
+
+/-- `slic`: an (h, w, 3) array, a positive seed spacing for which at least one seed exists on each axis, at least one iteration -/
+def PreSlic (env : Env) : Prop :=
+  (env "array").ndim = 3 ∧ (env "array").shape.getD 2 0 = 3 ∧ 1 ≤ (env "spacer").ival ∧ 1 ≤ (env "max_iters").ival ∧
+  (env "spacer").ival / 2 < ((env "array").shape.getD 0 0 : Int) ∧ (env "spacer").ival / 2 < ((env "array").shape.getD 1 0 : Int)
+
+/-- 2-D kernels (`find2d`, `close_holes`, `convexhull`): the array is a matrix -/
+def Pre2D (name : String) (env : Env) : Prop := (env name).ndim = 2
+
+/-- `cwatershed`: markers are read at the flat positions of the surface -/
+def PreCwatershed (env : Env) : Prop := (env "surface").shape = (env "markers").shape
+
+/-- `disk`: a positive dimension -/
+def PreDisk (env : Env) : Prop := 1 ≤ (env "dim").ival
+
 def handle (a : Args) : String :=
   match a.str "kind" with
+  | "guards" =>
+    match guardsOf (a.str "fn") with
+    | none => "verdict=unknown-fn atom=-1 n=0"
+    | some gs =>
+      let env := envOfArgs a
+      match firstReject gs env with
+      | some i => s!"verdict=reject atom={i} n={gs.length}"
+      | none => s!"verdict=accept atom=-1 n={gs.length}"
+  | "seeds" =>
+    let s := seeds (a.nat "s") (a.nat "n")
+    s!"seeds={showNats s} count={s.length}"
   | k => s!"error=unknown-kind-{k}"
 
 end Mahotas.C11
